@@ -573,13 +573,22 @@ impl<'a, T: QueryToRelationTranslator + Copy + Clone> VisitedQueryRelations<'a, 
                 .map(|(s, x)| (Expr::col(s.to_string()), x.clone()))
                 .collect();
             expr = expr.replace(columns).0;
-            let columns = group_by
-                .iter()
-                .filter_map(|x| {
-                    matches!(x, Expr::Column(_)).then_some((x.clone(), Expr::first(x.clone())))
-                })
-                .collect();
-            expr = expr.replace(columns).0;
+            // A grouping column used on its own stands for its (single) value in the group; inside
+            // an aggregate (HAVING SUM(key) > 1) it is the column the aggregate runs over.
+            fn first_outside_aggregates(expr: &Expr, group_by: &[Expr]) -> Expr {
+                match expr {
+                    Expr::Column(_) if group_by.contains(expr) => Expr::first(expr.clone()),
+                    Expr::Function(f) => Expr::Function(crate::expr::Function::new(
+                        f.function(),
+                        f.arguments()
+                            .iter()
+                            .map(|a| Arc::new(first_outside_aggregates(a, group_by)))
+                            .collect(),
+                    )),
+                    _ => expr.clone(),
+                }
+            }
+            expr = first_outside_aggregates(&expr, &group_by);
             named_exprs.push((having_name.clone(), expr));
             Some(having_name)
         } else {
